@@ -30,7 +30,11 @@ var unit = ev.Unit[Case]{
 			g.Calm()
 		}
 		g.Swarm(t)
-		ops := g.Seq(t, doc, ref.Opts{Neg: neg}, 0, 8, 2)
+		maxOps := 8
+		if gen.OneIn(t, 15, "longseq") {
+			maxOps = 24 // the same container touched many times
+		}
+		ops := g.Seq(t, doc, ref.Opts{Neg: neg}, 0, maxOps, 2)
 		esc := rapid.Bool().Draw(t, "spell")
 		dt, pt := gen.Texts(t, doc, ref.OpsTree(ops), esc, "sp")
 		return Case{Doc: dt, Patch: pt, Neg: neg}
